@@ -131,13 +131,15 @@ def run_case(case, ctx):
                         backed.append(False)
                         mutated = True
                     elif k == "extend":
-                        both(lambda: f.extend([W(x) for x in o[1]]), lambda: model.extend([W(x) for x in o[1]]), k)
+                        # like list.extend the argument is any iterable: a list, a tuple, a generator, a plain iterator
+                        shape = [list, tuple, lambda xs: (x for x in xs), iter][len(model) % 4]
+                        both(lambda: f.extend(shape([W(x) for x in o[1]])), lambda: model.extend([W(x) for x in o[1]]), k)
                         backed.extend([False] * len(o[1]))
                         mutated = True
                     elif k == "iadd":
                         def fa():
                             nonlocal f
-                            f += [W(x) for x in o[1]]
+                            f += [list, lambda xs: (x for x in xs), tuple, iter][len(model) % 4]([W(x) for x in o[1]])
                         both(fa, lambda: model.extend([W(x) for x in o[1]]), k)
                         backed.extend([False] * len(o[1]))
                         mutated = True
